@@ -595,6 +595,14 @@ def r6(ctx, facts):
                     if any(d[0] == "stmt" and d[3][0] == "use" and d[3][1][0] == "k" and d[3][1][1] == "fn" and str(d[3][1][2]).endswith(suffix)
                            for l in locs for d in b.defs.get(l, [])):
                         cs.append(c)
+                        continue
+                    # ... or wrapped in a closure (`parse_ext(&mut body, |buf| types::read_string_list(buf).map_err(..))`)
+                    for l in locs:
+                        for d in b.defs.get(l, []):
+                            if d[0] == "stmt" and d[3][0] == "agg" and d[3][1][0] == "closure":
+                                cbx = inline_view(facts).body(d[3][1][1])
+                                if cbx is not None and any((x.name or "").endswith(suffix) for bbx, x in cbx.calls() if bbx in cbx.live_blocks) and c not in cs:
+                                    cs.append(c)
         if len(cs) != 1:
             raise AnchorLost("parse_response_body_extensions: expected one call of %s, found %d" % (suffix, len(cs)))
         c = cs[0]
